@@ -75,5 +75,30 @@ def run(ck, prop, tier, loads, dumper):
                     if not ok:
                         ck.violation("C01|regexlex|%s|%s|out=%s" % (kind, kw, "dq" if qo == '"' else "sq"), "round trip of %s %s under output quote %s %s" % (kw, lex, qo, what),
                                      {"text": src})
+    if prop == "C01":
+        # the grammar's second regex form, delimited by double backslashes (REGEXP2): same bodies, same law
+        for b in bs:
+            if b["comment"]:
+                continue
+            body = "".join(b["b"])
+            lex = "\\\\%s\\\\%s" % (body, "i" if b["flag"] else "")
+            kind = "regex%d%s" % (len(body), "i" if b["flag"] else "")
+            for block, kw, key in SLOTS:
+                src = "%s\n  NAME 'before'\n  %s %s\n  GROUP 'after'\nEND\n" % (block, kw, lex)
+                try:
+                    d = loads(src)
+                except Exception:  # noqa: BLE001
+                    continue            # not accepted: outside C01's quantifier
+                ck.count()
+                n += 1
+                for qo in ('"', "'"):
+                    try:
+                        d2 = loads(dumper(quote=qo)(d))
+                        ok, what = d2 == d, "changes %r into %r" % (d.get(key), d2.get(key))
+                    except Exception as ex:  # noqa: BLE001
+                        ok, what = False, "is rejected / raises (%s)" % type(ex).__name__
+                    if not ok:
+                        ck.violation("C01|regexlex|bs-delim|%s|%s|out=%s" % (kind, kw, "dq" if qo == '"' else "sq"),
+                                     "round trip of %s %s under output quote %s %s" % (kw, lex, qo, what), {"text": src})
     ck.notes.append("regular-expression family (spec/RegexLex.tla): %d lexeme x slot documents replayed for %s" % (n, prop))
     return n
